@@ -643,6 +643,11 @@ def moment_specs(ctx):
     S.append(("left-wider-than-right", L(["raw", [[[0.0, 50], [5.0, 100], [10.0, 50]], [[10.0, 100], [10.5, 100]]]])))
     S.append(("heavy-tail-t", L(["t", [[1.5, 2]]])))
     S.append(("heavy-tail-pareto", L(["pareto", [[1.5, 2]]])))
+    # interval parameters whose corners straddle the "family moments fit the discretised support" test
+    S.append(("heavy-tail-t-mixed", L(["t", [[2.001, 30]]])))
+    S.append(("heavy-tail-pareto-mixed", L(["pareto", [[2.001, 4]]])))
+    S.append(("heavy-tail-lognormal-mixed", L(["lognormal", [0, [0.5, 3.5]]])))
+    S.append(("heavy-tail-t-mixed-neg", ["neg", L(["t", [[2.001, 30]]])]))
     if ctx.tier == "thorough":
         S.append(("mul/f-straddle", ["bin", "mul", "f", L(["normal", [[-1, 1], [0.5, 1]]]), L(nrm())]))
         for _ in range(60):
